@@ -668,9 +668,10 @@ class VPKFileSystem(FileSystem[VPKFile]):
     def walk_folder(self, folder: str = '') -> Iterator[File[Self]]:
         """Yield files in a folder."""
         # All VPK files use forward slashes.
-        folder = folder.replace('\\', '/')
+        folder = folder.replace('\\', '/').casefold().rstrip('/')
         for file in self._name_to_file.values():
-            if file.dir.startswith(folder):
+            file_dir = file.dir.casefold()
+            if not folder or file_dir == folder or file_dir.startswith(folder + '/'):
                 yield File(self, file.filename, file)
 
     def open_bin(self, name: Union[str, File[Self]]) -> BinaryIO:
